@@ -49,7 +49,9 @@ def proj(kind, r):
     elif kind == 'panicdiags':
         base['diags'] = r.get('diags')
     elif kind == 'hooks':
-        base['hooks'] = r.get('hooks')
+        # hook calls made inside the loop over a Go map come in that map's iteration order: compare as a multiset
+        hs = r.get('hooks')
+        base['hooks'] = sorted(hs, key=lambda h: json.dumps(h, sort_keys=True)) if isinstance(hs, list) else hs
     return base
 
 
